@@ -15,6 +15,10 @@
 //             GenDirectLine; Position(Distance()) reproduces the defining end point (for InverseLine: the INPUT point 2)
 //   duality   ArcPosition(a12) then Position(returned s12) (and the converse) is the same point to tol(f)
 //   stack     GenInverse gives the same answer whatever the previous contents of the stack (uninitialised reads)
+// keep the byte pattern written into the storage of a default-constructed line (placement new, section "defaultline"): without this
+// GCC treats the storage as clobbered at the start of the constructor and deletes the pattern, so that a member the default
+// constructor leaves uninitialised would not really hold "previous memory contents" when the library reads it
+#pragma GCC optimize("no-lifetime-dse")
 #include "harness/geod_common.hpp"
 #include <GeographicLib/Rhumb.hpp>
 #include <new>
@@ -83,6 +87,7 @@ struct Acc {
 struct Env {
   Ctx& c; const std::string& cls; int solver; J base;
   double sc_len, sc_area;
+  std::string regime;     // appended to violation keys: names a thin input regime so that a defect confined to it has its own key
   const char* sname() const { return SOLVER_NAME[solver]; }
 };
 
@@ -100,7 +105,7 @@ static void flush(Ctx& c) {
 static void judge(Env& e, int api, const char* an, const Desc& d, const Res& r, const Res& ref, unsigned want, bool nanret, unsigned mask, unsigned caps, int arcmode, double len) {
   ++g_acc.calls;
   auto wit = [&]() { return J(e.base).str("api", an).str("solver", e.sname()).u("mask", mask).u("caps", caps).i("arcmode", arcmode).f("len", len); };
-  std::string site = std::string(an) + "/" + e.sname();
+  std::string site = std::string(an) + "/" + e.sname() + e.regime;
   if (nanret) {
     if (!std::isnan(r.a12)) e.c.viol("nan:C12/number-returned-by-line-that-cannot-locate-point/" + site, e.cls, wit().f("returned", r.a12));
     for (int k = 0; k < d.n; ++k) if (!vh::is_sentinel(r.v[k], k))
@@ -161,9 +166,10 @@ static bool directed(uint64_t i, Base& c) {
   static const double arcs[] = {0, 90, 180, -180, 360, 179.999999, 3600.5};
   const uint64_t nf = 6, nl = 5, na = 5, nr = 7;
   if (i >= nf * nl * na * nr) return false;
+  i = (i * 397) % (nf * nl * na * nr);       // fixed permutation: any prefix of the catalogue (reduced-scale sanitizer runs) is a diverse subset
   double arc = arcs[i % nr]; i /= nr; c.azi1 = azis[i % na]; i /= na; c.lat1 = lats[i % nl]; i /= nl;
   set_ell(c.e, gh::WGS84_A, fs[i % nf], "directed");
-  c.arcmode = (i + (uint64_t)(arc * 7)) & 1; c.lon1 = (i % 3 == 0) ? 0 : (i % 3 == 1 ? 180 : -179.5);
+  c.arcmode = (i + (uint64_t)(int64_t)std::fabs(arc * 7)) & 1; c.lon1 = (i % 3 == 0) ? 0 : (i % 3 == 1 ? 180 : -179.5);
   c.len = c.arcmode ? arc : arc * (M_PI / 180) * c.e.a * (1 - c.e.f);
   c.cls = "direct/directed/f=" + std::to_string(c.e.f) + (c.arcmode ? "/arc" : "/dist");
   return true;
@@ -199,6 +205,7 @@ static bool directed_inv(uint64_t i, Inv& k) {
     {10, 20, 30}, {-10, 60, -150}, {89.99999999, -89.9, 100}, {5, -5, 179.99999}, {0.5, -0.5, 179.5}, {1e-9, 1e-9, 1e-9}};
   const uint64_t np = sizeof P / sizeof P[0], nf = 6;
   if (i >= np * nf * 2) return false;
+  i = (i * 101) % (np * nf * 2);             // fixed permutation (see directed())
   bool swap = i & 1; i /= 2; const double* p = P[i % np]; i /= np;
   set_ell(k.e, gh::WGS84_A, fs[i % nf], "directed");
   k.lat1 = p[0]; k.lat2 = p[1]; k.lon1 = -17; k.lon2 = -17 + p[2];
@@ -223,24 +230,42 @@ template <class G> static inline Res gen_inverse(const G& g, const Inv& k, unsig
   r.a12 = g.GenInverse(k.lat1, k.lon1, k.lat2, k.lon2, mask, r.v[0], r.v[1], r.v[2], r.v[3], r.v[4], r.v[5], r.v[6]);
   return r;
 }
-// fills the part of the stack that the next library call will use for its locals with a known pattern
-__attribute__((noinline)) static void dirty_stack(double v) {
-  volatile double a[4096];
-  for (int i = 0; i < 4096; ++i) a[i] = v;
+// Uninitialised-read exposure.  A member or local that the library forgets to compute for some mask / capability set usually still
+// holds the right value left behind by the previous, identical computation in the same storage, which hides the defect.  So
+// (a) the part of the stack that the next library call will use for its locals and temporaries is filled with a known pattern, and
+// (b) line objects are constructed by placement new into storage pre-filled with a byte pattern (kept by no-lifetime-dse above).
+// Patterns alternate between NaN (propagates into every output computed from it) and finite negative values (flip comparisons).
+static inline double stack_pattern(unsigned i) { return i & 1u ? -1.0 : std::numeric_limits<double>::quiet_NaN(); }
+template <int N> __attribute__((noinline)) static void dirty_stack_n(double v) {
+  volatile double a[N];
+  for (int i = 0; i < N; ++i) a[i] = v;
 }
+static inline void dirty_stack(double v) { dirty_stack_n<4096>(v); }        // inverse problems (EllipticFunction, coefficient arrays on the stack)
+static inline void dirty_small(double v) { dirty_stack_n<1536>(v); }        // direct problems (one temporary line object)
+template <class L> struct Slot {
+  alignas(L) unsigned char buf[sizeof(L)]; L* p = nullptr;
+  template <class F> L& make(unsigned n, F&& f) {       // f returns the line by value: constructed directly in buf (guaranteed elision)
+    destroy(); std::memset(buf, n & 1u ? 0xff : 0xa5, sizeof buf); p = new (buf) L(f()); return *p; }
+  void destroy() { if (p) { p->~L(); p = nullptr; } }
+  ~Slot() { destroy(); }
+};
 
 // physical residuals between two results describing "the same point" obtained by two numerical routes (author's measures)
 struct Phys { double pos, dir, m12, M, S; };
 static Phys phys_diff(const gh::Solvers& S, double lon_a, const Res& A, const Res& B) {
   (void)lon_a;
-  Phys p; q128 X1[3], X2[3], D1[3], D2[3];
+  Phys p; q128 X1[3], X2[3];
   ref::to_xyz<q128>(S.E, A.v[O_LAT], A.v[O_LON], X1); ref::to_xyz<q128>(S.E, B.v[O_LAT], B.v[O_LON], X2);
   p.pos = (double)ref::dist3(X1, X2);
-  ref::dir_xyz<q128>(A.v[O_LAT], A.v[O_LON], A.v[O_AZI], D1); ref::dir_xyz<q128>(B.v[O_LAT], B.v[O_LON], B.v[O_AZI], D2);
-  p.dir = (double)ref::dist3(D1, D2) * S.a;
+  // the author's azimuth measure (as C01): azimuth difference corrected for meridian convergence, times a (pole safe)
+  { q128 dalp = ref::remainder((q128)A.v[O_AZI] - (q128)B.v[O_AZI], (q128)360) * ref::deg<q128>();
+    q128 dlam = ref::remainder((q128)A.v[O_LON] - (q128)B.v[O_LON], (q128)360) * ref::deg<q128>();
+    q128 sphi = ref::sin((q128)B.v[O_LAT] * ref::deg<q128>());
+    p.dir = (double)(ref::fabs(ref::sin(dalp) * ref::cos(dlam) - ref::cos(dalp) * ref::sin(dlam) * sphi) * S.E.a); }
   p.m12 = std::fabs(A.v[O_m12] - B.v[O_m12]);
   p.M = std::max(std::fabs(A.v[O_M12] - B.v[O_M12]), std::fabs(A.v[O_M21] - B.v[O_M21])) * S.a;
-  p.S = std::fabs(A.v[O_AREA] - B.v[O_AREA]) / S.a;
+  // S12 has a branch cut (alp2 - alp1 = +-pi) where it jumps by 2 pi c2 = half the ellipsoid area: compare modulo that
+  { double half = (double)(2 * ref::pi<q128>() * S.E.c2); p.S = std::fabs(std::remainder(A.v[O_AREA] - B.v[O_AREA], half)) / S.a; }
   return p;
 }
 static double route_tol(const gh::Solvers& S, int solver, double f) {
@@ -318,23 +343,22 @@ template <class G> static int inverse_overload(const G& g, const Inv& k, int n, 
 static J base_j(const Base& k) { return J().f("a", k.e.a).f("f", k.e.f).f("lat1", k.lat1).f("lon1", k.lon1).f("azi1", k.azi1); }
 
 // a two-route comparison ("same point"): record the residuals over the tolerance, raise a keyed violation
-static void judge_route(Env& e, const gh::Solvers& S, const std::string& what, const Res& A, const Res& B, double T, double lenerr, bool with_aux, const J& w) {
+static void judge_route(Env& e, const gh::Solvers& S, const char* slug, const std::string& what, const Res& A, const Res& B, double T, double lenerr, bool with_aux, const J& w) {
   Phys p = phys_diff(S, 0, A, B);
   std::string sv = e.sname();
   e.c.obs(what + ": position difference / tolerance [" + sv + "]", p.pos / T, w);
   e.c.obs(what + ": direction difference*a / tolerance [" + sv + "]", p.dir / T, w);
   e.c.obs(what + ": length (s12 or a12*b) difference / tolerance [" + sv + "]", lenerr / T, w);
-  std::string key = "route:C12/" + what + "/" + sv;
+  std::string key = std::string("route:C12/") + slug + "/" + sv;
   if (!(p.pos <= T)) e.c.viol(key + "/position", e.cls, J(w).f("err_m", p.pos).f("tol_m", T).f("latA", A.v[O_LAT]).f("lonA", A.v[O_LON]).f("latB", B.v[O_LAT]).f("lonB", B.v[O_LON]));
   if (!(p.dir <= T)) e.c.viol(key + "/azimuth", e.cls, J(w).f("err_m", p.dir).f("tol_m", T).f("aziA", A.v[O_AZI]).f("aziB", B.v[O_AZI]));
   if (!(lenerr <= T)) e.c.viol(key + "/length", e.cls, J(w).f("err_m", lenerr).f("tol_m", T));
   if (with_aux) {
+    // m12 is judged (it is a length on the same footing as s12); M12/M21 and S12 are not part of "the same point" and are
+    // ill-conditioned near the poles (S12) / carry no documented figure (M12): recorded only
     e.c.obs(what + ": |m12 difference| / tolerance [" + sv + "]", p.m12 / T, w);
-    e.c.obs(what + ": |M12,M21 difference|*a / tolerance [" + sv + "]", p.M / T, w);
-    e.c.obs(what + ": |S12 difference|/a / tolerance [" + sv + "]", p.S / T, w);
+    e.c.obs(what + ": |M12,M21 difference|*a / tolerance (recorded only) [" + sv + "]", p.M / T, w);
     if (!(p.m12 <= T)) e.c.viol(key + "/m12", e.cls, J(w).f("err_m", p.m12).f("tol_m", T));
-    if (!(p.M <= T)) e.c.viol(key + "/M12-M21", e.cls, J(w).f("err_m", p.M).f("tol_m", T));
-    if (!(p.S <= T)) e.c.viol(key + "/S12", e.cls, J(w).f("err_m", p.S).f("tol_m", T));
   }
 }
 
@@ -366,12 +390,14 @@ static void direct_family(Ctx& c, const Base& k, const gh::Solvers& S, const G& 
     uint64_t coin = rng.next();
     for (unsigned i = 0; i < 256; ++i) {
       unsigned m = mk<G>(i | ((coin >> (i & 63) & 1u) && (i & 3) == 1 ? 256u : 0u));
+      dirty_small(stack_pattern(i >> 3));
       Res r = gen_direct(g, k, am, len[am], m);
       judge(e, A_GenDirect, "GenDirect", D_DIRECT, r, refD[am][i >> 7 & 1], w_direct(m), false, m, 0, am, len[am]);
     }
   }
   // ---- (B) a line with all capabilities: Position == Direct; GenPosition over the full mask lattice
-  L lall = g.Line(k.lat1, k.lon1, k.azi1);
+  Slot<L> sall, sc, s3;
+  L& lall = sall.make(0, [&] { return g.Line(k.lat1, k.lon1, k.azi1); });
   Res refP[2][2];
   for (int am = 0; am < 2; ++am) if (have[am]) {
     for (int u = 0; u < 2; ++u) {
@@ -388,7 +414,7 @@ static void direct_family(Ctx& c, const Base& k, const gh::Solvers& S, const G& 
   for (unsigned ci = 0; ci < 256; ++ci) {
     unsigned caps = mk<G>(ci & 127u) | (ci & 128u ? unsigned(G::DISTANCE_IN) : 0u);
     unsigned ecaps = caps | G::LATITUDE | G::AZIMUTH | G::LONG_UNROLL;
-    L lc = (ci & 1u) ? g.Line(k.lat1, k.lon1, k.azi1, caps) : L(g, k.lat1, k.lon1, k.azi1, caps);
+    L& lc = sc.make(ci >> 1, [&] { return (ci & 1u) ? g.Line(k.lat1, k.lon1, k.azi1, caps) : L(g, k.lat1, k.lon1, k.azi1, caps); });
     bool din = ci & 128u, dcap = caps >> 10 & 1u;
     if (lc.Capabilities() != ecaps || !lc.Init() || !lc.Capabilities(caps) || lc.Capabilities(G::ALL) != ((ecaps & 0x7F80u) == 0x7F80u))
       c.viol(std::string("caps:C12/Capabilities-inspector-wrong/") + e.sname(), k.cls, J(e.base).u("caps", caps).u("reported", lc.Capabilities()));
@@ -439,21 +465,21 @@ static void direct_family(Ctx& c, const Base& k, const gh::Solvers& S, const G& 
   auto scaleT = [&](int am) { return T0 * (am ? std::max(1.0, std::fabs(len[1]) / 180) : std::max(1.0, std::fabs(len[0]) / (M_PI * S.b))); };
   auto bad3 = [&](const std::string& what, double got, double want) { c.viol("third:C12/" + what + "/" + e.sname(), k.cls, J(e.base).f("s12", len[0]).f("a12", len[1]).f("got", got).f("want", want)); };
   if (have[0]) {
-    L ld = (rng.coin() ? g.DirectLine(k.lat1, k.lon1, k.azi1, len[0]) : g.GenDirectLine(k.lat1, k.lon1, k.azi1, false, len[0]));
+    L& ld = s3.make(0, [&] { return rng.coin() ? g.DirectLine(k.lat1, k.lon1, k.azi1, len[0]) : g.GenDirectLine(k.lat1, k.lon1, k.azi1, false, len[0]); });
     if (!vh::same_bits(ld.Distance(), len[0])) bad3("DirectLine/Distance()-not-s12", ld.Distance(), len[0]);
     if (!same(ld.Arc(), refD[0][0].a12)) bad3("DirectLine/Arc()-differs-from-Direct-a12", ld.Arc(), refD[0][0].a12);
     Res r = gen_pos(ld, false, ld.Distance(), L::ALL);
     judge(e, A_Third, "DirectLine/Position(Distance())", D_DIRECT, r, refD[0][0], 0xff, false, L::ALL, L::ALL, 0, len[0]);
     // reduced capabilities: DISTANCE_IN is supplied automatically, nothing else is
     unsigned ci = (unsigned)rng.below(128), caps = mk<G>(ci);
-    L lr = g.DirectLine(k.lat1, k.lon1, k.azi1, len[0], caps);
+    L& lr = sc.make(ci, [&] { return g.DirectLine(k.lat1, k.lon1, k.azi1, len[0], caps); });
     if (!vh::same_bits(lr.Distance(), len[0]) || !same(lr.Arc(), refD[0][0].a12)) bad3("DirectLine(caps)/third-point", lr.Arc(), refD[0][0].a12);
     if (lr.Capabilities() != (caps | G::DISTANCE_IN | G::LATITUDE | G::AZIMUTH | UN)) bad3("DirectLine(caps)/capabilities", lr.Capabilities(), caps | G::DISTANCE_IN);
     Res rr = gen_pos(lr, false, lr.Distance(), L::ALL);
     judge(e, A_Third, "DirectLine(caps)/Position(Distance())", D_DIRECT, rr, refD[0][0], w_direct(L::ALL & (caps | G::LATITUDE | G::AZIMUTH)), false, L::ALL, caps, 0, len[0]);
   }
   if (have[1]) {
-    L la = (rng.coin() ? g.ArcDirectLine(k.lat1, k.lon1, k.azi1, len[1]) : g.GenDirectLine(k.lat1, k.lon1, k.azi1, true, len[1]));
+    L& la = s3.make(1, [&] { return rng.coin() ? g.ArcDirectLine(k.lat1, k.lon1, k.azi1, len[1]) : g.GenDirectLine(k.lat1, k.lon1, k.azi1, true, len[1]); });
     if (!vh::same_bits(la.Arc(), len[1])) bad3("ArcDirectLine/Arc()-not-a12", la.Arc(), len[1]);
     { Res t3, r3; fill(t3); fill(r3); t3.v[O_S12] = la.Distance(); r3.v[O_S12] = refD[1][0].v[O_S12]; t3.a12 = r3.a12 = 0;
       judge(e, A_Third, "ArcDirectLine/Distance()", D_DIRECT, t3, r3, 1u << O_S12, false, 0, L::ALL, 1, len[1]); }
@@ -461,10 +487,10 @@ static void direct_family(Ctx& c, const Base& k, const gh::Solvers& S, const G& 
     judge(e, A_Third, "ArcDirectLine/ArcPosition(Arc())", D_DIRECT, r, refD[1][0], 0xff, false, L::ALL, L::ALL, 1, len[1]);
     // Position(Distance()) goes the other numerical route: the same point to tol(f)
     Res rd = gen_pos(la, false, la.Distance(), L::ALL);
-    judge_route(e, S, "ArcDirectLine: Position(Distance()) vs ArcDirect end point", rd, refD[1][0], scaleT(1), std::fabs(rd.a12 - len[1]) * (M_PI / 180) * S.b, true, J(e.base).f("a12", len[1]).f("s13", la.Distance()));
+    judge_route(e, S, "ArcDirectLine/Position(Distance())-vs-ArcDirect-end-point", "ArcDirectLine: Position(Distance()) vs ArcDirect end point", rd, refD[1][0], scaleT(1), std::fabs(rd.a12 - len[1]) * (M_PI / 180) * S.b, true, J(e.base).f("a12", len[1]).f("s13", la.Distance()));
     // reduced capabilities in arc mode: no DISTANCE -> Distance() is NaN, Arc() kept
     unsigned ci = (unsigned)rng.below(128), caps = mk<G>(ci);
-    L lr = g.ArcDirectLine(k.lat1, k.lon1, k.azi1, len[1], caps);
+    L& lr = sc.make(ci, [&] { return g.ArcDirectLine(k.lat1, k.lon1, k.azi1, len[1], caps); });
     if (!vh::same_bits(lr.Arc(), len[1])) bad3("ArcDirectLine(caps)/Arc()-not-a12", lr.Arc(), len[1]);
     if (caps >> 10 & 1u ? !same(lr.Distance(), la.Distance()) : !std::isnan(lr.Distance())) bad3("ArcDirectLine(caps)/Distance()-NaN-convention", lr.Distance(), caps >> 10 & 1u ? la.Distance() : NAN);
   }
@@ -472,10 +498,10 @@ static void direct_family(Ctx& c, const Base& k, const gh::Solvers& S, const G& 
   if (have[0] && have[1]) {
     Res p1 = refP[1][0];                                   // point at arc len[1]; its distance:
     Res p2 = gen_pos(lall, false, p1.v[O_S12], L::ALL);
-    judge_route(e, S, "duality: ArcPosition(a12) then Position(s12)", p2, p1, scaleT(1), std::fabs(p2.a12 - len[1]) * (M_PI / 180) * S.b, true, J(e.base).f("a12", len[1]).f("s12", p1.v[O_S12]));
+    judge_route(e, S, "duality/ArcPosition(a12)-then-Position(s12)", "duality: ArcPosition(a12) then Position(s12)", p2, p1, scaleT(1), std::fabs(p2.a12 - len[1]) * (M_PI / 180) * S.b, true, J(e.base).f("a12", len[1]).f("s12", p1.v[O_S12]));
     Res p3 = refP[0][0];                                   // point at distance len[0]; its arc:
     Res p4 = gen_pos(lall, true, p3.a12, L::ALL);
-    judge_route(e, S, "duality: Position(s12) then ArcPosition(a12)", p4, p3, scaleT(0), std::fabs(p4.v[O_S12] - len[0]), true, J(e.base).f("s12", len[0]).f("a12", p3.a12));
+    judge_route(e, S, "duality/Position(s12)-then-ArcPosition(a12)", "duality: Position(s12) then ArcPosition(a12)", p4, p3, scaleT(0), std::fabs(p4.v[O_S12] - len[0]), true, J(e.base).f("s12", len[0]).f("a12", p3.a12));
   }
 }
 
@@ -508,12 +534,14 @@ static void inverse_family(Ctx& c, const Inv& k, const gh::Solvers& S, const G& 
   Res ref = gen_inverse(g, k, G::ALL);
   if (ref_out) *ref_out = ref;
   e.sc_len = std::max(e.sc_len, std::fabs(ref.v[0]));
+  // thin regime with its own keys: arc length below tol0 = eps radians (GenInverse's "prevent negative s12 or m12 for short lines" patch)
+  if (ref.a12 >= 0 && ref.a12 < EPS * (180 / M_PI) * 1.0001) e.regime = "/arc-below-eps";
   for (int o = 0; o < 7; ++o) if (vh::is_sentinel(ref.v[o], o)) c.viol(std::string("sentinel:C12/requested-output-not-written/GenInverse(ALL)/") + e.sname() + "/" + D_INVERSE.name[o], k.cls, e.base);
   // ---- (A) the full mask lattice; the stack below the call is alternately filled with -1.0 / +1.0 so that a read of an
   //      uninitialised local shows up as a dependence on the mask or on the fill pattern
   for (unsigned i = 0; i < 256; ++i) {
     unsigned m = mk<G>(i);
-    dirty_stack(i & 1u ? 1.0 : -1.0);
+    dirty_stack(i & 1u ? 1.0 : (i & 2u ? std::numeric_limits<double>::quiet_NaN() : -1.0));
     Res r = gen_inverse(g, k, m);
     judge(e, A_GenInverse, "GenInverse", D_INVERSE, r, ref, w_inverse(m), false, m, 0, -1, 0);
     if (i < 128 && !(i >> 3 & 1u)) {      // masks without DISTANCE: repeat with the opposite fill pattern
@@ -522,7 +550,7 @@ static void inverse_family(Ctx& c, const Inv& k, const gh::Solvers& S, const G& 
       bool eq = same(r.a12, r2.a12);
       for (int o = 0; o < 7; ++o) eq = eq && same(r.v[o], r2.v[o]);
       ++g_acc.calls;
-      if (!eq) c.viol(std::string("uninit:C12/result-depends-on-previous-stack-contents/GenInverse/") + e.sname(), k.cls, J(e.base).u("mask", m).f("a12_A", r.a12).f("a12_B", r2.a12).f("m12_A", r.v[3]).f("m12_B", r2.v[3]));
+      if (!eq) c.viol(std::string("uninit:C12/result-depends-on-previous-stack-contents/GenInverse/") + e.sname() + e.regime, k.cls, J(e.base).u("mask", m).f("a12_A", r.a12).f("a12_B", r2.a12).f("m12_A", r.v[3]).f("m12_B", r2.v[3]));
     }
   }
   // ---- (B) inline overloads
@@ -532,35 +560,39 @@ static void inverse_family(Ctx& c, const Inv& k, const gh::Solvers& S, const G& 
   for (int o = 0; o < 7; ++o) finite = finite && std::isfinite(ref.v[o]);
   if (!finite) { c.event(std::string("inverse problem with non-finite ALL outputs ") + e.sname()); return; }
   // ---- (C) InverseLine: third point = point 2 of the inverse problem
-  auto bad3 = [&](const std::string& what, double got, double want, unsigned caps) { c.viol("third:C12/" + what + "/" + e.sname(), k.cls, J(e.base).u("caps", caps).f("got", got).f("want", want)); };
+  auto bad3 = [&](const std::string& what, double got, double want, unsigned caps) { c.viol("third:C12/" + what + "/" + e.sname() + e.regime, k.cls, J(e.base).u("caps", caps).f("got", got).f("want", want)); };
   double T = route_tol(S, solver, k.e.f) * std::max(1.0, ref.v[0] / (M_PI * S.b));
   std::string sv = e.sname();
+  // thin regime with its own keys: prolate, both points near the equator, longitude difference near 180 (the inverse solver itself is off there)
+  std::string rp = (k.e.f < -0.2 && std::max(std::fabs(k.lat1), std::fabs(k.lat2)) < 2 && std::fabs(std::remainder(k.lon2 - k.lon1, 360.0)) > 120) ? "/prolate-near-equatorial-near-antipodal" : "";
   {
-    L li = g.InverseLine(k.lat1, k.lon1, k.lat2, k.lon2);
+    Slot<L> si;
+    L& li = si.make(0, [&] { dirty_stack(-1.0); return g.InverseLine(k.lat1, k.lon1, k.lat2, k.lon2); });
     if (!same(li.Arc(), ref.a12)) bad3("InverseLine/Arc()-differs-from-Inverse-a12", li.Arc(), ref.a12, L::ALL);
     if (!same(li.Azimuth(), ref.v[1])) bad3("InverseLine/Azimuth()-differs-from-Inverse-azi1", li.Azimuth(), ref.v[1], L::ALL);
     if (!same(li.Latitude(), k.lat1) || !same(li.Longitude(), k.lon1)) bad3("InverseLine/start-point", li.Latitude(), k.lat1, L::ALL);
     double ds = std::fabs(li.Distance() - ref.v[0]);
-    c.obs("InverseLine: |Distance() - Inverse s12| / tolerance [" + sv + "]", ds / T, e.base);
-    if (!(ds <= T)) c.viol("third:C12/InverseLine/Distance()-vs-Inverse-s12/" + sv, k.cls, J(e.base).f("Distance", li.Distance()).f("s12", ref.v[0]).f("tol_m", T));
+    c.obs("InverseLine: |Distance() - Inverse s12| / tolerance [" + sv + rp + "]", ds / T, e.base);
+    if (!(ds <= T)) c.viol("third:C12/InverseLine/Distance()-vs-Inverse-s12/" + sv + rp, k.cls, J(e.base).f("Distance", li.Distance()).f("s12", ref.v[0]).f("tol_m", T));
     // Position(Distance()) and ArcPosition(Arc()) against the INPUT point 2
     for (int am = 0; am < 2; ++am) {
       Res p = gen_pos(li, am, am ? li.Arc() : li.Distance(), L::ALL);
       q128 X1[3], X2[3];
       ref::to_xyz<q128>(S.E, p.v[O_LAT], p.v[O_LON], X1); ref::to_xyz<q128>(S.E, k.lat2, k.lon2, X2);
       double epos = (double)ref::dist3(X1, X2);
-      c.obs(std::string("InverseLine: ") + (am ? "ArcPosition(Arc())" : "Position(Distance())") + " vs input point 2, position error / tolerance [" + sv + "]", epos / T, e.base);
-      if (!(epos <= T)) c.viol(std::string("third:C12/InverseLine/") + (am ? "ArcPosition(Arc())" : "Position(Distance())") + "-misses-input-point-2/" + sv, k.cls,
+      c.obs(std::string("InverseLine: ") + (am ? "ArcPosition(Arc())" : "Position(Distance())") + " vs input point 2, position error / tolerance [" + sv + rp + "]", epos / T, e.base);
+      if (!(epos <= T)) c.viol(std::string("third:C12/InverseLine/") + (am ? "ArcPosition(Arc())" : "Position(Distance())") + "-misses-input-point-2/" + sv + rp, k.cls,
                                J(e.base).f("err_m", epos).f("tol_m", T).f("lat", p.v[O_LAT]).f("lon", p.v[O_LON]).f("s13", li.Distance()).f("a13", li.Arc()));
       // the other quantities at the third point are those of the inverse solution
       double em = std::fabs(p.v[O_m12] - ref.v[3]), eM = std::max(std::fabs(p.v[O_M12] - ref.v[4]), std::fabs(p.v[O_M21] - ref.v[5])) * S.a;
-      c.obs("InverseLine: m12 at third point vs Inverse m12 / tolerance [" + sv + "]", em / T, e.base);
-      c.obs("InverseLine: M12,M21 at third point vs Inverse *a / tolerance [" + sv + "]", eM / T, e.base);
+      c.obs("InverseLine: m12 at third point vs Inverse m12 / tolerance [" + sv + rp + "]", em / T, e.base);
+      c.obs("InverseLine: M12,M21 at third point vs Inverse *a / tolerance [" + sv + rp + "]", eM / T, e.base);
     }
   }
   for (int rep = 0; rep < 4; ++rep) {      // capability conventions of InverseLine
     unsigned caps = rep == 0 ? unsigned(G::LATITUDE | G::LONGITUDE) : rep == 1 ? unsigned(G::DISTANCE_IN) : rep == 2 ? unsigned(G::STANDARD) : (mk<G>((unsigned)rng.below(128)) | (rng.coin() ? unsigned(G::DISTANCE_IN) : 0u));
-    L li = g.InverseLine(k.lat1, k.lon1, k.lat2, k.lon2, caps);
+    Slot<L> si;
+    L& li = si.make(rep, [&] { dirty_stack(stack_pattern(rep)); return g.InverseLine(k.lat1, k.lon1, k.lat2, k.lon2, caps); });
     bool din = caps >> 11 & 1u, dcap = (caps >> 10 & 1u) || din;      // DISTANCE is added when DISTANCE_IN is asked for
     unsigned ecaps = caps | (din ? unsigned(G::DISTANCE) : 0u) | G::LATITUDE | G::AZIMUTH | G::LONG_UNROLL;
     if (li.Capabilities() != ecaps) bad3("InverseLine(caps)/capabilities", li.Capabilities(), ecaps, caps);
@@ -575,8 +607,8 @@ static void inverse_family(Ctx& c, const Inv& k, const gh::Solvers& S, const G& 
       q128 X1[3], X2[3];
       ref::to_xyz<q128>(S.E, p.v[O_LAT], p.v[O_LON], X1); ref::to_xyz<q128>(S.E, k.lat2, k.lon2, X2);
       double epos = (double)ref::dist3(X1, X2);
-      c.obs("InverseLine(caps): third point vs input point 2, position error / tolerance [" + sv + "]", epos / T, J(e.base).u("caps", caps));
-      if (!(epos <= T)) c.viol("third:C12/InverseLine(caps)/third-point-misses-input-point-2/" + sv, k.cls, J(e.base).u("caps", caps).f("err_m", epos).f("tol_m", T));
+      c.obs("InverseLine(caps): third point vs input point 2, position error / tolerance [" + sv + rp + "]", epos / T, J(e.base).u("caps", caps));
+      if (!(epos <= T)) c.viol("third:C12/InverseLine(caps)/third-point-misses-input-point-2/" + sv + rp, k.cls, J(e.base).u("caps", caps).f("err_m", epos).f("tol_m", T));
     }
   }
 }
@@ -709,11 +741,11 @@ static void sec_inverse(Ctx& c, uint64_t) { Inv k = gen_inv(c.rng); run_inverse(
 int main(int argc, char** argv) {
   std::vector<Section> S;
   S.push_back({"defaultline", 12, 12, false, sec_defaultline, 60});
-  S.push_back({"directed", 1050, 1050, false, sec_directed, 120});
-  S.push_back({"direct", 600, 20000, true, sec_direct, 120});
-  S.push_back({"full", 16, 400, true, sec_full, 600});
-  S.push_back({"dirinv", 288, 288, false, sec_dirinv, 120});
-  S.push_back({"inverse", 600, 20000, true, sec_inverse, 120});
-  S.push_back({"rhumb", 600, 20000, true, sec_rhumb, 120});
+  S.push_back({"directed", 1050, 1050, true, sec_directed, 120});
+  S.push_back({"direct", 4000, 80000, true, sec_direct, 120});
+  S.push_back({"full", 64, 1000, true, sec_full, 600});
+  S.push_back({"dirinv", 288, 288, true, sec_dirinv, 120});
+  S.push_back({"inverse", 4000, 80000, true, sec_inverse, 120});
+  S.push_back({"rhumb", 3000, 60000, true, sec_rhumb, 120});
   return vh::run_sections(argc, argv, S);
 }
